@@ -184,6 +184,32 @@ func c10run(out *rec.Out, c c10case, stats map[string]int) {
 		ctl = sched.Install()
 		defer ctl.Remove()
 	}
+	if (len(c.acts)+len(c.kinds))%3 == 0 && c.mode == "wait" {
+		// ANOTHER document was instantiated earlier in this program: the same process, activity and boundary-event ids,
+		// but the boundary events are of the other kind (interrupting <-> non-interrupting) and listen for other signals.
+		// Nothing of it may be left when the document under test runs.
+		flip := []byte(c.kinds)
+		for i := range flip {
+			if flip[i] == 'i' {
+				flip[i] = 'n'
+			} else {
+				flip[i] = 'i'
+			}
+		}
+		c0 := c
+		c0.kinds = string(flip)
+		g0 := c10graph(c0)
+		for _, n := range g0.Nodes {
+			for i := range n.Defs {
+				n.Defs[i].Name += "_earlier_document"
+			}
+		}
+		if in0, _, err := eng.Start(g0.XML(), nil); err == nil {
+			in0.Quiesce(2 * time.Second)
+			in0.Stop(2 * time.Second)
+			stats["cases_after_an_earlier_document_with_the_same_ids"]++
+		}
+	}
 	in, defs, err := eng.Start(g.XML(), nil)
 	if err != nil {
 		out.Line("harness-error %v", err)
